@@ -2,6 +2,6 @@
 from composite import install
 TIE = "corr:pe"
 TIE_THEOREM = "Relic.Props.C08 (models Relic.Model.PE vs lib/authenticode)"
-UNPROVED = ['Relic.Props.C08.pe_digest_ignores_signature_full']
+UNPROVED = []
 IMPL_PARALLEL = 16
-install(globals(), "C08", ["pe"])
+install(globals(), "C08", ["pe", "e2e"])
